@@ -770,7 +770,7 @@ def run(chk):
         "sqfs_tree_node_get_path followed by canonicalize_name on the same buffer, everything else is a constant or a "
         "command-line field; (c) constant hardening flags (O_CREAT|O_EXCL no O_TRUNC, AT_SYMLINK_NOFOLLOW, lsetxattr, "
         "fchmodat guarded by !S_ISLNK); (d) duplicate check and O_EXCL creation pass dominate the passes that re-open "
-        "by path, failed chdir never unpacks; (e) command-line paths canonicalised; (f) get_path refuses '/', '.', '..'.")
+        "by path, failed chdir never unpacks; (e) command-line paths canonicalised; (f) get_path refuses '/', '.', '..'. Further rules: K2-sorttotal (the sort returns its input unsorted only in the trivial cases or after a full adjacent scan), K2-walk (the sorting/checking pass reaches every directory), K12-flags also rejects name-creating calls outside the reviewed set; K1-order follows the check into helpers.")
     chk.assumptions = ["that sort + adjacent compare finds every duplicate, and races with other processes, are not decided"]
     sinks = PathSinks(prog)
     mset = sinks.reaches_M()
